@@ -216,7 +216,13 @@ def run_case_files(prop, texts, timeout=1500, stack_unlimited=True):
             vals.append([int(x) for x in re.findall(r"-?\d+", re.sub(r"%[NZ]|%nat", "", body))])
         return (True, vals, out)
     with ThreadPoolExecutor(max_workers=case_workers(texts)) as ex:
-        return list(ex.map(one, paths))
+        res = list(ex.map(one, paths))
+    # a coqc killed from outside (rc 137 / "Killed": the kernel's OOM killer when the machine is busy with other work) says
+    # nothing about the cases: evaluate those shards again, one at a time
+    for i, (ok, vals, out) in enumerate(res):
+        if not ok and out.strip().endswith("Killed"):
+            res[i] = one(paths[i])
+    return res
 
 # ---------------------------------------------------------------- known findings
 def known_findings(prop):
